@@ -55,7 +55,9 @@ func runBackend(b backend, script string, file string, timeoutS int) SolveResult
 	switch {
 	case first == "unsat":
 		res.Status = "unsat"
-		os.Remove(path)
+		if os.Getenv("GOWP_KEEP") == "" {
+			os.Remove(path)
+		}
 	case first == "sat":
 		res.Status = "sat"
 		res.Model = parseModel(raw)
